@@ -114,7 +114,7 @@ func c19RunPF(f []string) string {
 	threads, outcap, incap := hx.Atoi(f[1]), hx.Atoi(f[2]), hx.Atoi(f[3])
 	ops := parseC19Ops(f[4])
 	wantClose := f[5] == "1"
-	if threads < 1 || threads > runtime.GOMAXPROCS(0) || threads > 9 {
+	if threads < 1 || threads > runtime.NumCPU() || threads > 9 {
 		return "skip"
 	}
 	var sched []int
@@ -139,8 +139,12 @@ func c19RunPF(f []string) string {
 	concurrent.VerifHook = ctl.hook
 	defer func() { concurrent.VerifHook = nil; curCtl = nil }()
 
+	// NewProcessor limits the workers to GOMAXPROCS; afterwards one P is enough (and much
+	// faster): a forced schedule never needs two goroutines to run at the same instant
+	setProcs(threads)
 	queue := make(chan concurrent.Operator, incap)
 	p := concurrent.NewProcessor(queue, outcap, threads)
+	setProcs(1)
 	var mu sync.Mutex
 	var res []string
 	closed, waited := false, false
@@ -207,8 +211,21 @@ func (o yieldOp) Operation() (interface{}, error) {
 	return o.c19op.Operation()
 }
 
+var curProcs = 0
+
+func setProcs(n int) {
+	if n < 1 {
+		n = 1
+	}
+	if curProcs != n {
+		runtime.GOMAXPROCS(n)
+		curProcs = n
+	}
+}
+
 func c19RunPU(f []string) string {
 	threads, outcap, incap := hx.Atoi(f[1]), hx.Atoi(f[3]), hx.Atoi(f[4])
+	setProcs(hx.Atoi(f[2]))
 	ops := parseC19Ops(f[5])
 	mode := hx.Atoi(f[6])
 	done := make(chan string, 1)
@@ -276,10 +293,11 @@ func (s c19span) Operation() (interface{}, error) {
 	return [2]int{s.i, s.j}, nil
 }
 func (s c19span) Slice(i, j int) concurrent.Mapper { return c19span{s.i + i, s.i + j, s.errAt} }
-func (s c19span) Len() int                        { return s.j - s.i }
+func (s c19span) Len() int                         { return s.j - s.i }
 
 func c19RunMP(f []string) string {
 	n, threads, maxChunk, errAt := hx.Atoi(f[1]), hx.Atoi(f[2]), hx.Atoi(f[3]), hx.Atoi(f[4])
+	setProcs(runtime.NumCPU())
 	done := make(chan string, 1)
 	go func() {
 		results, err := concurrent.Map(c19span{0, n, errAt}, threads, maxChunk)
@@ -383,6 +401,7 @@ func c19RunPP(f []string) string {
 	concurrent.VerifHook = ctl.hook
 	defer func() { concurrent.VerifHook = nil; curCtl = nil }()
 
+	setProcs(1)
 	p := concurrent.NewPromise(fl[0] == '1', fl[1] == '1', fl[2] == '1')
 	rets := make([]string, len(calls))
 	var mu sync.Mutex
@@ -459,7 +478,7 @@ func c19Child(args []string) int {
 		// goroutines that are blocked for ever (deadlocked cases, Map's workers) pile up and
 		// slow the goroutine dumps down: ask for a fresh process
 		tag := "K "
-		if runtime.NumGoroutine() > 150 || obs == "hang" {
+		if runtime.NumGoroutine() > 60 || obs == "hang" {
 			tag = "R "
 		}
 		w.WriteString(tag + obs + "\n")
@@ -660,13 +679,6 @@ func c19Gen(g *hx.Gen) {
 			letters = append(letters, byte('0'+i))
 			counts = append(counts, 2)
 		}
-		if t == 3 && !g.Thorough() {
-			// 630 orderings: sample them in the quick tier
-			for k := 0; k < 120 && !g.Done(); k++ {
-				g.Casef("pf 3 %d 1 - 1 %s", g.Pick(0, 1), shuffleMultiset(g, letters, counts))
-			}
-			continue
-		}
 		multisetPerms(letters, counts, func(s string) bool {
 			g.Casef("pf %d 0 1 - 1 %s", t, s)
 			return !g.Done()
@@ -679,15 +691,83 @@ func c19Gen(g *hx.Gen) {
 		for _, oc := range []int{0, 1} {
 			pre := strings.Repeat("p", nops+1)
 			multisetPerms([]byte{'0', '1', 'c'}, []int{3, 3, nops}, func(s string) bool {
-				if g.Thorough() || g.Chance(0.12) {
+				if g.Thorough() || g.Chance(0.3) {
 					g.Casef("pf 2 %d %d %s 1 %s", oc, nops, ops, pre+s)
 				}
 				return !g.Done()
 			})
 		}
 	}
+	// ---- Promise, forced: all orderings of the take/put steps for small sets of calls
+	sets := []string{"F1,W", "W,F1", "F1,F2", "F1,W,F2", "W,F1,W", "F1,F2,W", "X2.7,W,F1", "F1,X2.7,W", "W,W,F1", "F1,W,X3.8"}
+	for _, fl := range []string{"000", "001", "010"} {
+		for _, set := range sets {
+			n := strings.Count(set, ",") + 1
+			letters := make([]byte, n)
+			counts := make([]int, n)
+			for i := range letters {
+				letters[i] = byte('a' + i)
+				counts[i] = 2
+			}
+			multisetPerms(letters, counts, func(s string) bool {
+				if fl == "000" || g.Thorough() || g.Chance(0.5) {
+					g.Casef("pp %s %s %s", fl, set, s)
+				}
+				return !g.Done()
+			})
+		}
+	}
+	// four goroutines: sampled in the quick tier, exhaustive in the thorough one
+	for _, set := range []string{"F1,W,W,F2", "W,F1,F2,W", "F1,X2.7,W,W", "F1,F2,F3,W"} {
+		letters := []byte{'a', 'b', 'c', 'd'}
+		multisetPerms(letters, []int{2, 2, 2, 2}, func(s string) bool {
+			g.Casef("pp 000 %s %s", set, s)
+			return !g.Done()
+		})
+	}
+	// ---- Map
+	for _, tr := range [][3]int{{0, 1, 1}, {0, 4, 7}, {1, 1, 1}, {1, 8, 1}, {7, 7, 1}, {8, 7, 1}, {6, 7, 100}, {64, 8, 8}, {65, 8, 8}, {63, 8, 8}, {10, 3, 100}, {100, 1, 100}, {100, 1, 99}, {5, 40, 3}} {
+		g.Casef("mp %d %d %d -1", tr[0], tr[1], tr[2])
+	}
+	nm := g.Scale(1000, 20000)
+	for k := 0; k < nm && !g.Done(); k++ {
+		n := g.Pick(g.Range(0, 12), g.Range(0, 300), g.Range(0, 40))
+		t := g.Pick(g.Range(1, gmp), g.Range(1, 2*gmp), 1, 2)
+		mc := g.Pick(1, 2, g.Range(1, 10), g.Range(1, 400))
+		errAt := -1
+		if n > 0 && g.Chance(0.1) {
+			errAt = g.Intn(n)
+		}
+		g.Casef("mp %d %d %d %d", n, t, mc, errAt)
+	}
+	// ---- Processor, free running: workers 1…GOMAXPROCS (and out-of-range requests), buffers,
+	// 0 / fewer / equal / more operations than workers
+	nu := g.Scale(4000, 100000)
+	for k := 0; k < nu && !g.Done(); k++ {
+		t := g.Pick(g.Range(1, gmp), g.Range(1, gmp), 1, 2, gmp, 0, gmp+3)
+		eff := t
+		if eff < 1 || eff > gmp {
+			eff = gmp
+		}
+		var nops int
+		switch g.Intn(5) {
+		case 0:
+			nops = 0
+		case 1:
+			nops = g.Range(0, eff-1)
+		case 2:
+			nops = eff
+		case 3:
+			nops = eff + g.Range(1, 2*eff)
+		default:
+			nops = g.Range(0, 60)
+		}
+		mode := g.Pick(0, 0, 1, 1, 2)
+		g.Casef("pu %d %d %d %d %s %d", t, gmp, g.Pick(0, 0, 1, 2, 7, 64), g.Pick(0, 1, 3, 16), randOps(g, nops, g.Chance(0.1)), mode)
+	}
+	// ---- random forced schedules last (they take most of the time)
 	// random configurations and schedules
-	nf := g.Scale(700, 20000)
+	nf := g.Scale(2500, 40000)
 	for k := 0; k < nf && !g.Done(); k++ {
 		t := g.Pick(1, 2, 2, 3, 3, 4)
 		nops := g.Pick(0, 1, t-1, t, t+1, t+3, 2*t+1)
@@ -706,41 +786,8 @@ func c19Gen(g *hx.Gen) {
 		g.Casef("pf %d %d %d %s %s %s", t, g.Pick(0, 0, 1, 2, 5), g.Pick(1, 1, 2, 4), randOps(g, nops, g.Chance(0.3)),
 			hx.B(g.Chance(0.9)), randSched(g, letters, weights, g.Range(0, 4*(t+nops)+4)))
 	}
-	// ---- Promise, forced: all orderings of the take/put steps for small sets of calls
-	sets := []string{"F1,W", "W,F1", "F1,F2", "F1,W,F2", "W,F1,W", "F1,F2,W", "X2.7,W,F1", "F1,X2.7,W", "W,W,F1", "F1,W,X3.8"}
-	for _, fl := range []string{"000", "001", "010"} {
-		for _, set := range sets {
-			n := strings.Count(set, ",") + 1
-			letters := make([]byte, n)
-			counts := make([]int, n)
-			for i := range letters {
-				letters[i] = byte('a' + i)
-				counts[i] = 2
-			}
-			multisetPerms(letters, counts, func(s string) bool {
-				if fl == "000" || g.Thorough() || g.Chance(0.25) {
-					g.Casef("pp %s %s %s", fl, set, s)
-				}
-				return !g.Done()
-			})
-		}
-	}
-	// four goroutines: sampled in the quick tier, exhaustive in the thorough one
-	for _, set := range []string{"F1,W,W,F2", "W,F1,F2,W", "F1,X2.7,W,W", "F1,F2,F3,W"} {
-		letters := []byte{'a', 'b', 'c', 'd'}
-		if g.Thorough() {
-			multisetPerms(letters, []int{2, 2, 2, 2}, func(s string) bool {
-				g.Casef("pp 000 %s %s", set, s)
-				return !g.Done()
-			})
-		} else {
-			for k := 0; k < 80 && !g.Done(); k++ {
-				g.Casef("pp 000 %s %s", set, shuffleMultiset(g, letters, []int{2, 2, 2, 2}))
-			}
-		}
-	}
 	// all flag combinations, every kind of call (sequential and interleaved histories)
-	np := g.Scale(900, 20000)
+	np := g.Scale(3000, 40000)
 	callPool := []string{"F1", "F2", "F3", "Fn", "X4.7", "Xn.8", "X5.n", "Xn.n", "R6", "Rn", "B", "W", "W"}
 	for k := 0; k < np && !g.Done(); k++ {
 		fl := fmt.Sprintf("%d%d%d", g.Intn(2), g.Intn(2), g.Intn(2))
@@ -763,46 +810,6 @@ func c19Gen(g *hx.Gen) {
 			sched = randSched(g, letters, weights, g.Range(0, 2*n+1))
 		}
 		g.Casef("pp %s %s %s", fl, strings.Join(cs, ","), sched)
-	}
-	// ---- Map
-	for _, tr := range [][3]int{{0, 1, 1}, {0, 4, 7}, {1, 1, 1}, {1, 8, 1}, {7, 7, 1}, {8, 7, 1}, {6, 7, 100}, {64, 8, 8}, {65, 8, 8}, {63, 8, 8}, {10, 3, 100}, {100, 1, 100}, {100, 1, 99}, {5, 40, 3}} {
-		g.Casef("mp %d %d %d -1", tr[0], tr[1], tr[2])
-	}
-	nm := g.Scale(400, 10000)
-	for k := 0; k < nm && !g.Done(); k++ {
-		n := g.Pick(g.Range(0, 12), g.Range(0, 300), g.Range(0, 40))
-		t := g.Pick(g.Range(1, gmp), g.Range(1, 2*gmp), 1, 2)
-		mc := g.Pick(1, 2, g.Range(1, 10), g.Range(1, 400))
-		errAt := -1
-		if n > 0 && g.Chance(0.1) {
-			errAt = g.Intn(n)
-		}
-		g.Casef("mp %d %d %d %d", n, t, mc, errAt)
-	}
-	// ---- Processor, free running: workers 1…GOMAXPROCS (and out-of-range requests), buffers,
-	// 0 / fewer / equal / more operations than workers
-	nu := g.Scale(2000, 60000)
-	for k := 0; k < nu && !g.Done(); k++ {
-		t := g.Pick(g.Range(1, gmp), g.Range(1, gmp), 1, 2, gmp, 0, gmp+3)
-		eff := t
-		if eff < 1 || eff > gmp {
-			eff = gmp
-		}
-		var nops int
-		switch g.Intn(5) {
-		case 0:
-			nops = 0
-		case 1:
-			nops = g.Range(0, eff-1)
-		case 2:
-			nops = eff
-		case 3:
-			nops = eff + g.Range(1, 2*eff)
-		default:
-			nops = g.Range(0, 60)
-		}
-		mode := g.Pick(0, 0, 1, 1, 2)
-		g.Casef("pu %d %d %d %d %s %d", t, gmp, g.Pick(0, 0, 1, 2, 7, 64), g.Pick(0, 1, 3, 16), randOps(g, nops, g.Chance(0.1)), mode)
 	}
 }
 
